@@ -186,14 +186,17 @@ where
         let mut solver = (self.solver_factory)();
         self.constraints_encoder
             .encode_constraints(&reduced_af, solver.as_mut());
-        let assumptions = args
+        let selector = Literal::from(1 + solver.n_vars() as isize);
+        let clause = args
             .iter()
             .map(|a| {
                 self.constraints_encoder
                     .arg_to_lit(reduced_af.argument_set().get_argument(a.label()).unwrap())
             })
+            .chain(std::iter::once(selector.negate()))
             .collect::<Vec<Literal>>();
-        match solver.solve_under_assumptions(&assumptions).unwrap_model() {
+        solver.add_clause(clause);
+        match solver.solve_under_assumptions(&[selector]).unwrap_model() {
             Some(model) => {
                 let cc_ext = self
                     .constraints_encoder
